@@ -1992,7 +1992,7 @@ def SimulateControl(thetalist, dthetalist, g, Ftipmat, Mlist, Glist, \
     else:
         links = np.array(thetamat).shape[0]
         N = np.array(thetamat).shape[1]
-        tm= N * dt
+        Tf = N * dt
         timestamp = np.linspace(0, Tf, N)
         for i in range(links):
             col = [np.random.uniform(0, 1), np.random.uniform(0, 1),
